@@ -5,6 +5,7 @@ mod c10;
 mod c11;
 mod c17;
 mod c18;
+mod c33;
 mod gens;
 mod lang;
 mod vrlrun;
@@ -25,6 +26,7 @@ pub fn exec(op: &str, inputs: &[String]) -> Option<Reply> {
         .or_else(|| arith::exec(op, inputs))
         .or_else(|| c10::exec(op, inputs))
         .or_else(|| c11::exec(op, inputs))
+        .or_else(|| c33::exec(op, inputs))
 }
 
 fn generate(prop: &str, sink: &mut sink::Sink, rng: &mut rng::Rng, n: u64) -> bool {
@@ -39,6 +41,7 @@ fn generate(prop: &str, sink: &mut sink::Sink, rng: &mut rng::Rng, n: u64) -> bo
         "C13" => lang::generate(sink, rng, n, false, Some("o.c13")),
         "C10" => c10::generate(sink, rng, n),
         "C11" => c11::generate(sink, rng, n),
+        "C33" => c33::generate(sink, rng, n),
         _ => return false,
     }
     true
@@ -107,6 +110,7 @@ fn main() {
                 }
             }
         }
+        "c33" => c33::cli(&args[2..]),
         _ => {
             eprintln!("unknown command");
             std::process::exit(2);
